@@ -257,6 +257,7 @@ Proof.
     destruct (generate (c_mode c) f r) as [np|ex]; [|intros E; inversion E; subst; auto].
     destruct (ppath_eqb np (pf_rel f)); [apply IH; assumption|].
     destruct (contained (c_var c) (w_fs w) f np) as [[|]|]; try (intros E; inversion E; subst; auto; fail).
+    destruct (dest_parent_test (c_var c) (w_fs w) f np) as [[|]|]; try (intros E; inversion E; subst; auto; fail).
     destruct (parents_contained (w_fs w) f np) as [[|]|]; try (intros E; inversion E; subst; auto; fail).
     destruct (source_contained (w_fs w) f) as [[|]|]; try (intros E; inversion E; subst; auto; fail).
     destruct (renamer c w cwd1 (pf_rel f) np false) as [w1 [e1|]] eqn:R;
